@@ -646,9 +646,15 @@ class Check:
             print(json.dumps(obj, indent=1))
             return 0
         c = self.case_from_json(obj["case"])
+        shown = json.dumps(obj["case"])[:2000]
+        self.prepare([c])
         o = self.run_impl(c)
         h = self.holds(c, o)
-        print("case:", json.dumps(obj["case"])[:2000])
+        print("case:", shown)
         print("observed:", jsonable(o))
+        t = self.model_term(c)
+        if t is not None:
+            vals, log = eval_terms(self.pid + "r", self.corr_imports, [t])
+            print("model:", vals[0] if vals else log, " implementation (as model value):", jsonable(self.model_value(c, o)))
         print("holds:", h)
         return 0 if h is True else 1
